@@ -21,6 +21,7 @@ def parseStep (st : String) : Option Step :=
   | ["evt", n, v] => some (.evt n v)
   | ["fail"] => some .fail
   | ["failx"] => some .fail      -- a failure whose error text is not valid UTF-8: a failure like any other
+  | ["faill", _] => some .fail   -- a failure with a very long text of multi-byte characters: a failure like any other
   | ["panic"] => some .panic
   | ["nop"] => some .nop
   | ["mv", a, b, n] => n.toInt?.map (fun n => .mv a b n)
